@@ -67,11 +67,19 @@ func refQuery(v string) qref {
 			return qref{Kind: "int", Int: n}
 		}
 		// out of the int64 range: a number by the rule, representation not pinned down
+		if _, err := strconv.ParseFloat(v, 64); err != nil {
+			// beyond float64 as well (309 digits and more): no Go number the documentation names can hold
+			// it, so the literal string is as good; what must not come out is a value JSON cannot carry
+			return qref{Kind: "unspec", Options: []string{"int", "float", "literal"}}
+		}
 		return qref{Kind: "unspec", Options: []string{"int", "float"}} // but a number, not the literal string
 	}
 	if i := strings.IndexByte(body, '.'); i >= 0 {
 		a, b := body[:i], body[i+1:]
 		if allDigits(a) && allDigits(b) {
+			if _, err := strconv.ParseFloat(v, 64); err != nil {
+				return qref{Kind: "unspec", Options: []string{"float", "literal"}} // beyond float64, as above
+			}
 			return qref{Kind: "float"}
 		}
 		if (a == "" || allDigits(a)) && (b == "" || allDigits(b)) && (a != "" || b != "") {
@@ -242,7 +250,7 @@ func c19Words() *Scenario {
 		Seq: func(r *SeqRun) {
 			words := []string{"inf", "Inf", "+Inf", "-inf", "infinity", "Infinity", "nan", "NaN", "0x10", "0X1F", "0x1p4", "0x1p-2", "1_0", "0b11", "0o17", "1e3", "1E3", "1e+3", "-1e-3", ".5", "5.", "-.5", "+5.",
 				"true", "TRUE", "True", "false", "FALSE", "null", "Null", "NULL", "", "9223372036854775807", "9223372036854775808", "-9223372036854775808", "-9223372036854775809", "007", "-0", "+0", "1.50", "00.5",
-				"1.2.3", "--1", "+-1", "1-", "1+", "'aGVsbG8'", "'aGVsbG8='", "'!!'", "''", "\"\"", "\"a\\nb\"", "\"\\u00e9\"", "\"\\x\"", "\"a\"b\"", "1 ", " 1", "1\n", "١", "１"}
+				"1.2.3", "--1", "+-1", "1-", "1+", strings.Repeat("9", 308), strings.Repeat("9", 309), strings.Repeat("9", 400), "-" + strings.Repeat("9", 400), "+" + strings.Repeat("1", 310), strings.Repeat("9", 400) + ".5", "0." + strings.Repeat("0", 400) + "1", "1" + strings.Repeat("0", 308) + ".0", "17976931348623157" + strings.Repeat("0", 292), "17976931348623159" + strings.Repeat("0", 292), "'aGVsbG8'", "'aGVsbG8='", "'!!'", "''", "\"\"", "\"a\\nb\"", "\"\\u00e9\"", "\"\\x\"", "\"a\"b\"", "1 ", " 1", "1\n", "١", "１"}
 			for _, w := range words {
 				judgeQuery(r, w)
 				for _, c := range alpha {
